@@ -21,9 +21,6 @@ ListedDevs == {}
 Init == c \in 1..NObs /\ done = FALSE
 Finish ==
   /\ ~done /\ done' = TRUE /\ c' = c
-  /\ LET ob == Obs[c]
-         w  == Why(ob, {})
-     IN PrintT(ToJson(Verdict(ob, w = "", w, TRUE,
-                              IF w = "" THEN {} ELSE {d \in ListedDevs : Why(ob, {d}) = ""})))
+  /\ LET ob == Obs[c] IN PrintT(ToJson(Judged(ob, Why, ListedDevs, TRUE)))
 Next == Finish
 =============================================================================
